@@ -295,9 +295,12 @@ def check_max(prog: Program, res: Result) -> None:
         okc = isinstance(d, ast.Call) and prog.resolve_call(fi, d) == f"{CM}:make_confmaps"
         res.ob(R, okc, fi.qualname, "each instance contributes make_confmaps of its own points", f"the per-instance map is `{short(d, 50) if d is not None else '?'}`", fi.where)
         lp = astq.enclosing_loops(upd[0])[0]
-        pts = astq.deref(fi.node, lp.iter)
-        okl = isinstance(lp, ast.For) and "points_batch" in norm(pts) and isinstance(d, ast.Call) and norm(lp.target) in norm(d.args[0])
-        res.ob(R, okl, fi.qualname, "loop visits every instance of the batch once", f"the loop iterates `{short(pts, 40) if pts is not None else '?'}`", fi.where)
+        le = astq.loop_elems(lp, fi.node) if isinstance(lp, ast.For) else None
+        pts = astq.expand(fi.node, le.seq) if le is not None else None
+        arg0 = astq.expand(fi.node, d.args[0], keep=[le.elem] if le and le.elem else []) if isinstance(d, ast.Call) and d.args else None
+        okl = le is not None and pts is not None and "points_batch" in norm(pts) and arg0 is not None and \
+            (le.is_elem(arg0) or le.is_elem(arg0, pts) or (le.elem is not None and le.elem in astq.names_in(arg0)))
+        res.ob(R, okl, fi.qualname, "loop visits every instance of the batch once", f"the loop iterates `{short(lp.iter, 40)}`", fi.where)
     # generate_multiconfmaps slices to num_instances
     g = prog.func(f"{CM}:generate_multiconfmaps")
     sl = [n for n in walk_function(g.node) if isinstance(n, ast.Subscript) and norm(n.value) == "instances"]
@@ -323,6 +326,10 @@ VARIANTS = [
             "    x = torch.nan_to_num(x)\n    cm = torch.exp(-((xv_reshaped - x) ** 2 + (yv_reshaped - y) ** 2) / (2 * sigma**2))\n    cm = cm / cm.amax(dim=(2, 3), keepdim=True)\n", "C01-nan"),
     Variant("nan-fill-one", F, "    cm = torch.nan_to_num(cm)\n", "    cm = torch.nan_to_num(cm, nan=1.0)\n", "C01-nan"),
     Variant("range-sign", F, "    cm = torch.exp(-((xv_reshaped - x) ** 2 + (yv_reshaped - y) ** 2) / (2 * sigma**2))", "    cm = torch.exp(-((xv_reshaped - x) ** 2 - (yv_reshaped - y) ** 2) / (2 * sigma**2))", "C01-range"),
+    Variant("bp-max-loop-range", F, "    for p in points:\n        cm_instance = make_confmaps(p.unsqueeze(dim=0), xv, yv, sigma)",
+            "    for idx in range(points.shape[0]):\n        cm_instance = make_confmaps(points[idx : idx + 1], xv, yv, sigma)", None),
+    Variant("max-loop-skips-first", F, "    for p in points:\n        cm_instance = make_confmaps(p.unsqueeze(dim=0), xv, yv, sigma)",
+            "    for idx in range(points.shape[0]):\n        cm_instance = make_confmaps(points[0:1], xv, yv, sigma)", "C01-max"),
     Variant("max-to-sum", F, "        cms = torch.maximum(cms, cm_instance)", "        cms = cms + cm_instance", "C01-max"),
     Variant("sigma-no-stride", F, "        yv,\n        sigma * output_stride,\n    )  # (n_samples, n_nodes, height/ output_stride, width/ output_stride)\n\n    return confidence_maps\n\n\ndef generate_multiconfmaps",
             "        yv,\n        sigma,\n    )  # (n_samples, n_nodes, height/ output_stride, width/ output_stride)\n\n    return confidence_maps\n\n\ndef generate_multiconfmaps", "C01-sigma"),
